@@ -133,7 +133,7 @@ Qed.
 Local Open Scope R_scope.
 Notation Rmat := (list (list R)).
 Notation mgetR := (@mget ROps).
-Ltac nlia := cbn [T ROps] in *; lia.
+Ltac nlia := try unfold pt in *; cbn [T ROps] in *; lia.
 Ltac nlra := cbn [T ROps] in *; lra.
 
 Lemma sumR_flat_map {A B} (f : B -> R) (g : A -> list B) l :
@@ -1022,3 +1022,162 @@ Proof.
     + intros [|k] Hk'; cbn [nth]; [lra|]. rewrite Forall_forall in HF. apply HF, nth_In. lia.
     + intros [|k] Hk'; cbn [nth]; [exact Hlt | apply Hk; lia].
 Qed.
+
+(* ------------------------------------------------------------------ I. the Delaunay mapper, end to end *)
+Section DelMapper.
+  Variables (m : mask) (subs : list nat) (grid points : list Rpt) (simplices : list (list Z)) (simplex_for : list Z).
+  Let P := length points.
+  Let pt0 : Rpt := (0, 0).
+  Definition vtxR (row : list Z) (k : nat) : Rpt := @vertex ROps points row k.
+  (* the oracle's contract as far as the matrix needs it *)
+  Hypothesis Hlen : length subs = count_unmasked m.
+  Hypothesis Hsub : forall i, (i < length subs)%nat -> (1 <= nth i subs 0)%nat.
+  Hypothesis Hgrid : length grid = total_sub subs.
+  Hypothesis Hfor : length simplex_for = length grid.
+  Hypothesis Hpts : points <> [].
+  Hypothesis Hsimp : forall row, In row simplices ->
+    exists a b c, row = [a; b; c] /\ (0 <= a < Z.of_nat P)%Z /\ (0 <= b < Z.of_nat P)%Z /\ (0 <= c < Z.of_nat P)%Z
+                  /\ crossR (vtxR row 0) (vtxR row 1) (vtxR row 2) <> 0.
+  Hypothesis Hidx : forall t, In t simplex_for -> t = (-1)%Z \/ (0 <= t < Z.of_nat (length simplices))%Z.
+
+  Let mp := fst (@del_mappings ROps grid simplex_for simplices points).
+  Let sz := snd (@del_mappings ROps grid simplex_for simplices points).
+  Let wt := @del_weights ROps grid points mp.
+  Definition nearest (q : Rpt) : nat := @argmin ROps (map (fun v => @sqdist ROps v q) points).
+
+  (* the weight the property claims for sub-pixel s and source pixel p *)
+  Definition del_w (s p : nat) : R :=
+    let q := nth s grid pt0 in let t := nth s simplex_for (-1)%Z in
+    if Z.eqb t (-1) then (if Nat.eqb (nearest q) p then 1 else 0)
+    else let row := nth (Z.to_nat t) simplices [] in
+         let '(w0, w1, w2) := area_weights (vtxR row 0) (vtxR row 1) (vtxR row 2) q in
+         (if Z.eqb (nthZ row 0) (Z.of_nat p) then w0 else 0) + (if Z.eqb (nthZ row 1) (Z.of_nat p) then w1 else 0)
+         + (if Z.eqb (nthZ row 2) (Z.of_nat p) then w2 else 0).
+
+  Lemma nearest_lt q : (nearest q < P)%nat.
+  Proof.
+    unfold nearest, P. destruct (argmin_spec (map (fun v => @sqdist ROps v q) points)) as [A _].
+    - destruct points; [congruence | discriminate].
+    - rewrite map_length in A. exact A.
+  Qed.
+
+  Lemma del_mp_row s : (s < length grid)%nat ->
+    nth s mp [] = (if Z.eqb (nth s simplex_for (-1)%Z) (-1)
+                   then [Z.of_nat (nearest (nth s grid pt0)); (-1)%Z; (-1)%Z]
+                   else nth (Z.to_nat (nth s simplex_for (-1)%Z)) simplices [(-1)%Z; (-1)%Z; (-1)%Z]).
+  Proof.
+    intros Hs. unfold mp, del_mappings. cbn [fst].
+    rewrite (nth_map_lt _ _ _ _ (pt0, (-1)%Z)) by (rewrite combine_length; nlia).
+    rewrite combine_nth by nlia. cbn [fst snd]. reflexivity.
+  Qed.
+  Lemma del_sz s : (s < length grid)%nat ->
+    nth s sz 0%nat = length (filter (fun v => (0 <=? v)%Z) (nth s mp [])).
+  Proof.
+    intros Hs. unfold sz, mp, del_mappings. cbn [fst snd].
+    rewrite (nth_map_lt _ _ _ _ []) by (rewrite map_length, combine_length; nlia). reflexivity.
+  Qed.
+  Lemma del_wt s : (s < length grid)%nat -> nth s wt [] = @del_weight_row ROps points (nth s grid pt0) (nth s mp []).
+  Proof.
+    intros Hs. unfold wt, del_weights.
+    assert (Lmp : length mp = length grid).
+    { unfold mp, del_mappings. cbn [fst]. rewrite map_length, combine_length. nlia. }
+    rewrite (nth_map_lt _ _ _ _ (pt0, [])) by (rewrite combine_length; nlia).
+    rewrite combine_nth by nlia. reflexivity.
+  Qed.
+
+  (* the two shapes a row can take *)
+  Lemma del_row_cases s : (s < length grid)%nat ->
+    (nth s simplex_for (-1)%Z = (-1)%Z /\ nth s mp [] = [Z.of_nat (nearest (nth s grid pt0)); (-1)%Z; (-1)%Z]
+     /\ nth s sz 0%nat = 1%nat /\ nth s wt [] = [1; 0; 0]) \/
+    (nth s simplex_for (-1)%Z <> (-1)%Z /\ exists a b c, nth (Z.to_nat (nth s simplex_for (-1)%Z)) simplices [] = [a; b; c] /\
+       nth s mp [] = [a; b; c] /\ (0 <= a < Z.of_nat P)%Z /\ (0 <= b < Z.of_nat P)%Z /\ (0 <= c < Z.of_nat P)%Z /\
+       crossR (vtxR [a; b; c] 0) (vtxR [a; b; c] 1) (vtxR [a; b; c] 2) <> 0 /\
+       nth s sz 0%nat = 3%nat /\
+       nth s wt [] = (let '(w0, w1, w2) := area_weights (vtxR [a; b; c] 0) (vtxR [a; b; c] 1) (vtxR [a; b; c] 2) (nth s grid pt0) in [w0; w1; w2])).
+  Proof.
+    intros Hs. rewrite del_wt, del_sz by exact Hs. rewrite del_mp_row by exact Hs.
+    destruct (Z.eqb_spec (nth s simplex_for (-1)%Z) (-1)) as [E|E].
+    - left. split; [exact E|]. split; [reflexivity|]. split.
+      + cbn [filter]. destruct (Z.leb_spec 0 (Z.of_nat (nearest (nth s grid pt0)))); [reflexivity | lia].
+      + unfold del_weight_row. cbn [nthZ nth]. cbn. unfold one, zero. cbn. reflexivity.
+    - right. split; [exact E|].
+      destruct (Hidx (nth s simplex_for (-1)%Z)) as [Q|Q]; [apply nth_In; lia | contradiction |].
+      set (t := Z.to_nat (nth s simplex_for (-1)%Z)) in *. assert (Ht : (t < length simplices)%nat) by (unfold t; lia).
+      destruct (Hsimp (nth t simplices []) (nth_In _ _ Ht)) as [a [b [c [Er [Ha [Hb' [Hc Hd]]]]]]].
+      exists a, b, c. rewrite (nth_indep simplices [(-1)%Z; (-1)%Z; (-1)%Z] [] Ht). rewrite Er in *.
+      split; [reflexivity|]. split; [reflexivity|]. repeat (split; [assumption|]). split.
+      + cbn [filter]. destruct (Z.leb_spec 0 a); [|lia]. destruct (Z.leb_spec 0 b); [|lia]. destruct (Z.leb_spec 0 c); [|lia]. reflexivity.
+      + unfold del_weight_row. cbn [nthZ nth]. destruct (Z.eqb_spec b (-1)); [lia|]. cbn [negb].
+        unfold area_weights, vtxR. cbv zeta. runfold. reflexivity.
+  Qed.
+
+  Lemma del_mapper_ok : mapper_ok m subs P mp sz.
+  Proof.
+    constructor; auto. intros s k Hs Hk. rewrite <- Hgrid in Hs.
+    destruct (del_row_cases s Hs) as [[_ [Em [Es _]]]|[_ [a [b [c [_ [Em [Ha [Hb' [Hc [_ [Es _]]]]]]]]]]]]; rewrite Em; rewrite Es in Hk.
+    - assert (k = 0%nat) by lia. subst k. cbn [nthZ nth]. pose proof (nearest_lt (nth s grid pt0)). lia.
+    - destruct k as [|[|[|k]]]; cbn [nthZ nth]; auto; lia.
+  Qed.
+
+  Lemma del_listed s p : (s < length grid)%nat -> listed_weight mp sz wt s p = del_w s p.
+  Proof.
+    intros Hs. unfold listed_weight, del_w.
+    destruct (del_row_cases s Hs) as [[E [Em [Es Ew]]]|[E [a [b [c [Er [Em [Ha [Hb' [Hc [Hd [Es Ew]]]]]]]]]]]]; cbn [T ROps] in *; rewrite Em, Es, Ew.
+    - rewrite E, Z.eqb_refl. cbn [seq map sumR nthZ nth].
+      destruct (Z.eqb_spec (Z.of_nat (nearest (nth s grid pt0))) (Z.of_nat p)); destruct (Nat.eqb_spec (nearest (nth s grid pt0)) p);
+        try lra; exfalso; lia.
+    - destruct (Z.eqb_spec (nth s simplex_for (-1)%Z) (-1)); [contradiction|]. rewrite Er.
+      destruct (area_weights (vtxR [a; b; c] 0) (vtxR [a; b; c] 1) (vtxR [a; b; c] 2) (nth s grid pt0)) as [[w0 w1] w2].
+      cbn [seq map sumR nthZ nth]. lra.
+  Qed.
+
+  Theorem del_mapper_matrix :
+    exists M, @mapping_matrix ROps mp sz wt P (count_unmasked m) (slim_for_sub m subs) (@sub_fractions ROps subs) = Ok M
+      /\ mat_shape (count_unmasked m) P M
+      /\ (forall i, (i < count_unmasked m)%nat -> sumR (map (fun p => mgetR M i p) (seq 0 P)) = 1)
+      /\ (forall i p, (i < count_unmasked m)%nat -> (p < P)%nat -> 0 <= mgetR M i p)
+      /\ (forall i p, (i < count_unmasked m)%nat -> (p < P)%nat ->
+            mgetR M i p = sumR (map (fun s => 1 / INR (sq_n (nth i subs 0%nat)) * del_w s p) (block subs i))).
+  Proof.
+    destruct (entry_block_formula m subs P mp sz wt del_mapper_ok) as [M [E [HS HE]]].
+    exists M. split; [exact E|]. split; [exact HS|]. split; [|split].
+    - apply (rows_sum_to_one m subs P mp sz wt M del_mapper_ok); auto.
+      intros s Hs. rewrite <- Hgrid in Hs.
+      destruct (del_row_cases s Hs) as [[_ [_ [Es Ew]]]|[_ [a [b [c [_ [_ [_ [_ [_ [Hd [Es Ew]]]]]]]]]]]]; cbn [T ROps] in *; rewrite Es, Ew.
+      + cbn [seq map sumR nth]. lra.
+      + pose proof (area_weights_sum _ _ _ (nth s grid pt0) Hd) as Hw.
+        destruct (area_weights (vtxR [a; b; c] 0) (vtxR [a; b; c] 1) (vtxR [a; b; c] 2) (nth s grid pt0)) as [[w0 w1] w2].
+        cbn [seq map sumR nth]. lra.
+    - apply (rows_nonneg m subs P mp sz wt M del_mapper_ok); auto.
+      intros s k Hs Hk. rewrite <- Hgrid in Hs.
+      destruct (del_row_cases s Hs) as [[_ [_ [Es Ew]]]|[_ [a [b [c [_ [_ [_ [_ [_ [Hd [Es Ew]]]]]]]]]]]]; cbn [T ROps] in *; rewrite Ew; rewrite Es in Hk.
+      + destruct k as [|k]; [cbn; lra | lia].
+      + pose proof (area_weights_sum _ _ _ (nth s grid pt0) Hd) as Hw.
+        destruct (area_weights (vtxR [a; b; c] 0) (vtxR [a; b; c] 1) (vtxR [a; b; c] 2) (nth s grid pt0)) as [[w0 w1] w2].
+        destruct k as [|[|[|k]]]; cbn [nth]; try lra; lia.
+    - intros i p Hi Hp. rewrite HE by auto. apply sumR_map_ext. intros s Hs. f_equal.
+      apply del_listed. rewrite Hgrid. apply (in_block_lt subs i); auto. lia.
+  Qed.
+
+  (* outside the hull (the oracle reports -1): all the weight goes to the nearest vertex, the first one among ties *)
+  Theorem outside_hull_nearest_vertex s : (s < length grid)%nat -> nth s simplex_for (-1)%Z = (-1)%Z ->
+    let q := nth s grid pt0 in let j := nearest q in
+    nth s mp [] = [Z.of_nat j; (-1)%Z; (-1)%Z] /\ nth s sz 0%nat = 1%nat /\ nth s wt [] = [1; 0; 0]
+    /\ (j < P)%nat
+    /\ (forall k, (k < P)%nat -> @sqdist ROps (nth j points pt0) q <= @sqdist ROps (nth k points pt0) q)
+    /\ (forall k, (k < j)%nat -> @sqdist ROps (nth j points pt0) q < @sqdist ROps (nth k points pt0) q).
+  Proof.
+    intros Hs E. cbv zeta.
+    destruct (del_row_cases s Hs) as [[_ [Em [Es Ew]]]|[E' _]]; [|contradiction].
+    split; [exact Em|]. split; [exact Es|]. split; [exact Ew|]. split; [apply nearest_lt|].
+    unfold nearest. destruct (argmin_spec (map (fun v => @sqdist ROps v (nth s grid pt0)) points)) as [A [B C]].
+    { destruct points; [congruence | discriminate]. }
+    rewrite map_length in A, B.
+    set (j := @argmin ROps (map (fun v => @sqdist ROps v (nth s grid pt0)) points)) in *.
+    assert (N : forall k, (k < P)%nat -> nth k (map (fun v => @sqdist ROps v (nth s grid pt0)) points) 0 = @sqdist ROps (nth k points pt0) (nth s grid pt0)).
+    { intros k Hk. apply (nth_map_lt (fun v => @sqdist ROps v (nth s grid pt0)) points k 0 pt0). exact Hk. }
+    split.
+    - intros k Hk. rewrite <- (N j) by exact A. rewrite <- (N k) by exact Hk. apply B. exact Hk.
+    - intros k Hk. rewrite <- (N j) by exact A. rewrite <- (N k) by (unfold P; nlia). apply C. exact Hk.
+  Qed.
+End DelMapper.
